@@ -9,7 +9,7 @@
 (* Each check evaluates only its own property's predicate; a case whose    *)
 (* base stream is not lossless is not judged by C12 (that is C04's job).   *)
 (***************************************************************************)
-EXTENDS RefLexer, Json, TLC
+EXTENDS RefLexer, Json, TLC, Held
 CONSTANT Check
 
 VARIABLE l
@@ -39,7 +39,7 @@ Next ==
   /\ l <= Len(Trace)
   /\ l' = l + 1
   /\ (~Drift(Trace[l]) \/ PrintT("SPEC-DRIFT " \o ToString(l) \o " the option-free stream differs from RefLexer.RefTokens"))
-  /\ LET f == Fails(Trace[l]) IN f = "" \/ PrintT("VERIF-FAIL " \o ToString(l) \o " " \o f)
+  /\ LET f == Fails(Trace[l]) IN Report(l, f, Trace[l])
 Spec == Init /\ [][Next]_l
 Accepted == TLCGet("stats").diameter - 1 = Len(Trace)
 =============================================================================
